@@ -37,8 +37,18 @@ pub trait DataInput {
 
     /// Read a vector of bytes with the specified length
     fn read_vec(&mut self, len: usize) -> Result<Vec<u8>> {
-        let mut buf = vec![0u8; len];
-        self.read_bytes(&mut buf)?;
+        // `len` usually comes from an untrusted length prefix: read in bounded chunks so that the
+        // allocation is proportional to the bytes actually present, not to the declared length.
+        const CHUNK: usize = 64 * 1024;
+        let mut buf = Vec::with_capacity(len.min(CHUNK));
+        let mut remaining = len;
+        while remaining > 0 {
+            let n = remaining.min(CHUNK);
+            let start = buf.len();
+            buf.resize(start + n, 0);
+            self.read_bytes(&mut buf[start..])?;
+            remaining -= n;
+        }
         Ok(buf)
     }
 
